@@ -154,6 +154,11 @@ def decipher_all(decipher: DecipherCallable, objid: int, genno: int, x: object) 
     elif isinstance(x, dict):
         for k, v in x.items():
             x[k] = decipher_all(decipher, objid, genno, v)
+    elif isinstance(x, PDFStream):
+        # the payload is deciphered when it is decoded; the strings in the
+        # stream dictionary are encrypted like any other string of the object
+        for k, v in x.attrs.items():
+            x.attrs[k] = decipher_all(decipher, objid, genno, v)
     return x
 
 
